@@ -551,7 +551,7 @@ def coq_map_case(c: dict) -> str:
 
 def corr_maps(ctx, res: CorrResult):
     rng = ctx.rng
-    n = ctx.scale(360, 12000)
+    n = ctx.scale(450, 12000)
     cases, outs = [], []
     for _ in range(n):
         c = gen_map_case(rng)
@@ -956,11 +956,11 @@ def correspondence(ctx) -> CorrResult:
         ctx.log(f"{name}: {res.evaluations - before} cases, {time.time() - t0:.1f}s")
     phase("maps", lambda: corr_maps(ctx, res))
     t0 = time.time()
-    models = make_models(ctx, ctx.scale(170, 8000), res)
+    models = make_models(ctx, ctx.scale(300, 8000), res)
     ctx.log(f"models: {len(models)} generated, {time.time() - t0:.1f}s")
     phase("systemize", lambda: corr_systemize(ctx, res, models))
-    phase("steady", lambda: corr_steady(ctx, res, models[: ctx.scale(80, 3000)]))
-    phase("stacked", lambda: corr_stacked(ctx, res, models[: ctx.scale(70, 2500)]))
+    phase("steady", lambda: corr_steady(ctx, res, models[: ctx.scale(150, 3000)]))
+    phase("stacked", lambda: corr_stacked(ctx, res, models[: ctx.scale(120, 2500)]))
     res.distinct_nontrivial = nt
     res.distribution["models_generated"] = len(models)
     res.distribution["log_variable_models"] = sum(1 for mm in models if mm.spec["logs"])
@@ -1399,15 +1399,15 @@ def falsify(ctx, hints):
     except Exception as e:  # noqa
         counts.setdefault("witness_errors", []).append(f"{type(e).__name__}: {e}"[:120])
     # 2. random models
-    n = ctx.scale(60, 2500)
+    n = ctx.scale(90, 2500)
     models = make_models(ctx, n, res, special_share=0.15)
     for mm in models:
         falsify_systemize(mm, fails, counts)
         if len(fails) > 40:
             break
-    for mm in models[: ctx.scale(35, 1200)]:
+    for mm in models[: ctx.scale(50, 1200)]:
         falsify_steady(mm, fails, counts)
-    for mm in models[: ctx.scale(35, 1200)]:
+    for mm in models[: ctx.scale(50, 1200)]:
         falsify_stacked(mm, rng, fails, counts)
     falsify_terminal(ctx, fails, counts)
     user_function_checks(ctx, fails, counts)
